@@ -44,6 +44,7 @@ fn main() {
         "C19" => props::c19::run(&a),
         "C17" => props::c17::run(&a),
         "C03" => props::c03::run(&a),
+        "C16" => props::c03::run_prop(&a, "C16", 16),
         "C01" => props::c01::run(&a),
         "C09" => props::c09::run(&a),
         "C11" => props::c11::run(&a),
